@@ -287,7 +287,7 @@ func TestHistories(t *testing.T) {
 		runCase(t, c)
 		return
 	}
-	pbt.Check(t, 800, 40000, func(rt *rapid.T) {
+	pbt.Check(t, 800, 12000, func(rt *rapid.T) {
 		c := genFree(rt)
 		if pbt.WantSample(t) {
 			pbt.Sample(t, opsText(c.Ops))
@@ -300,7 +300,7 @@ func TestHistoriesAvoiding(t *testing.T) {
 	if _, ok := pbt.ReplayFile(); ok {
 		t.Skip("replay mode (TestHistories replays)")
 	}
-	pbt.Check(t, 800, 40000, func(rt *rapid.T) {
+	pbt.Check(t, 800, 12000, func(rt *rapid.T) {
 		c := genAvoiding(rt)
 		if pbt.WantSample(t) {
 			pbt.Sample(t, opsText(c.Ops))
